@@ -23,6 +23,7 @@ RULE = ('Hypothesis-generated full-feature inputs (vlib/apigen: all node kinds, 
         'over 1-4 source files, cold cache / warm cache / cache disabled, and a permutation of independent declarations (functions, '
         'callbacks, typedef vs struct body order) compared modulo source positions. non-trivial = the namespace has >= 2 comment '
         'blocks AND >= 2 includes/packages or a node with several source positions; distinct = hash of the case')
+RULE = RULE + ' ' + 'One case in three adds 1-3 include directories holding an older copy of a dependency before/after the fixture directory (which copy is used may depend on the order given only).'
 ASSUMPTIONS = [
     'substrate P: cmodel.to_symbols mirrors scannerparser.y (calibrated by tools/calibrate_p.py)',
     'comment block identifiers are unique within a case (with duplicates "last wins" is documented behaviour)',
